@@ -88,6 +88,20 @@ claim('C15', 'exploration', 'runtime monitor: interact trace oracle on an outer 
       '+ output_filter(child reads); return and tty-mode restoration checked.',
       'Non-return within 15 s is a refuting event; inner child is a raw-mode reporter.', '5/C15')
 
+claim('C06', 'fault_enumeration', 'runtime monitor: transport oracle under enumerated placements of peer actions among reader syscalls',
+      'The peer (a puppet) writes blocks of unique ids, closes and exits at every placement among the first n system calls '
+      'of the reader (poll, read, child-status check, timed wait), performed and awaited just before that call; plus bulk '
+      'transfers on four transports, in-process fd/socket placements and PopenSpawn under schedule perturbation. Returned '
+      'data must equal what was acknowledged as written, EOF only after all of it, reads <= size, socket timeout restored.',
+      'Kernel pty/pipe/socket ordering trusted; the placement is exact because the harness waits until the action is visible.',
+      '5/C06')
+claim('C10', 'fault_enumeration', 'runtime monitor: lifecycle invariants from /proc after every operation of enumerated sequences',
+      'All operation sequences up to a bound (and random longer ones) over the lifecycle alphabet x six child dispositions '
+      '(incl. signal-ignoring, stopped, already exited, exiting mid-sequence) on pty, fd and socket transports; invariants '
+      'I1-I5 (liveness truth, dead-and-reaped, idempotent close/no leak, I/O after close fails without touching a canary on '
+      'the old descriptor number, no stale descriptor number) evaluated after every operation.',
+      'Blocking wait() only issued when /proc shows the child exiting; delays lowered via configuration attributes.', '5/C10')
+
 PENDING = {
 }
 
